@@ -21,8 +21,11 @@ MCItemsOf == [t |-> <<1, 2>>, r |-> <<1, 2>>, e |-> <<1, 2>>]
 MCRootOf == [t |-> "t", r |-> "r", e |-> "e"]
 INSTANCE MassBalance WITH Canon <- MCCanon, ItemsOf <- MCItemsOf, RootOf <- MCRootOf
 
-VARIABLES sys, pert, phase
-vars == <<sys, pert, phase>>
+VARIABLES sys, pert, phase, scale
+vars == <<sys, pert, phase, scale>>
+\* `scale`: after the first round of checks ALL values of the system are multiplied by 2^scale and the checks are
+\* run again on the same object.  Two-component numbers are scale free (the unit tol/2 scales along), so every
+\* verdict must be the same: the checks depend on the CURRENT values only, not on earlier calls.
 
 GenG == [lab \in LabelingsOver({"t", "r", "e"}) |-> 1 + 4 * (lab["t"] - 1) + 2 * (lab["r"] - 1) + (lab["e"] - 1)]
 
@@ -64,7 +67,7 @@ Systems == {MkSys(fl, k, sa, sb, sn, ex) :
 Balanced(S) == Failing(S, NoPert) = {}
 
 Init == /\ sys \in {S \in Systems : Balanced(S)}
-        /\ pert = NoPert /\ phase = "built"
+        /\ pert = NoPert /\ phase = "built" /\ scale = 0
 
 \* the LAST labeling in row-major order and the first one: two cells per object
 CellsOf(ds) == LET rm == RowMajor(ds) IN {rm[1], rm[Len(rm)]}
@@ -79,6 +82,7 @@ Perts(S) ==
 Step == /\ phase = "built"
         /\ pert' \in Perts(sys)
         /\ phase' = "checked"
+        /\ scale' \in (IF pert'.obj = "flow" /\ pert'.op = "add" THEN {0, 30, -30} ELSE {0})
         /\ UNCHANGED sys
 Spec == Init /\ [][Step]_vars
 
@@ -96,7 +100,7 @@ SysJson(S) == [procs |-> S.procs,
 PertJson(P) == [obj |-> P.obj, id |-> P.id, lab |-> LabTuple(P.lab), op |-> P.op, val |-> <<P.val.i, P.val.e, P.val.nan>>]
 
 EmitInv == (Emit /\ Checked) =>
-    PrintT(<<"VEC", ToJson([sys |-> SysJson(sys), pert |-> PertJson(pert),
+    PrintT(<<"VEC", ToJson([sys |-> SysJson(sys), pert |-> PertJson(pert), rescale |-> scale,
                             failing |-> {sys.procs[p] : p \in Failing(sys, pert)},
                             verdict |-> MassBalanceVerdict(sys, pert),
                             anynan |-> AnyNaN(sys, pert), nanbalance |-> HasNaNBalance(sys, pert),
